@@ -56,7 +56,7 @@ func drawNetOps(t *rapid.T, label string, n, nIn, nSensors int, fast bool) []Net
 }
 
 func GenC13() *rapid.Generator[C13Case] {
-	cyc := genNet(NetCfg{Cyclic: true, ParallelLinks: true, Rename: true})
+	cyc := genNet(NetCfg{Cyclic: true, ParallelLinks: true, Rename: true, BigRecurrent: true})
 	dag := genNet(NetCfg{Rename: true})
 	mod := genGenomeSpec(GenomeCfg{Modules: true, MinGenes: 1, SingleOutMod: true, ModestWeight: true, AllEnabled: false})
 	return rapid.Custom(func(t *rapid.T) C13Case {
@@ -199,6 +199,9 @@ func CheckC13(c C13Case, rec *Rec) error {
 		rec.Class("network with cycles")
 	default:
 		rec.Class("feed-forward network")
+	}
+	if c.Modular == nil && len(c.Net.Nodes) > 130 {
+		rec.Class("network with more than 128 neurons")
 	}
 	for _, n := range c.Net.Nodes {
 		if n.Act == 0 && !isSensorRole(n.Role) && c.Modular == nil {
